@@ -27,6 +27,10 @@ def units(tier):
     us += func_units("pyrtcm.rtcmhelpers.calc_crc24q", tier)
     us += func_units("pyrtcm.rtcmmessage.RTCMMessage.__init__", tier)
     us += func_units("pyrtcm.rtcmmessage.RTCMMessage.identity", tier)
+    # 'whatever the underlying stream injects': when that stream is the library's own socket wrapper (plain or chunked), the slices
+    # are slices of the peer's (decoded) byte stream only if the wrapper hands those bytes on in order, inventing / repeating nothing
+    from props.common import socket_units
+    us += socket_units(tier, safety_only=True)
     from pyvc import clientrun
     us.append(clientrun.unit("two_reads", clientrun.lemma_two_reads))
     return us
